@@ -7,6 +7,7 @@ import (
 	"context"
 
 	"github.com/apache/arrow-go/v18/arrow"
+	"github.com/apache/arrow-go/v18/arrow/array"
 )
 
 // Method type string constants for DispatchInfo.MethodType.
@@ -83,17 +84,35 @@ func methodTypeString(t MethodType) string {
 	return DispatchMethodStream
 }
 
-// batchBufferSize returns the total top-level buffer size in bytes across all
-// columns in a record batch. This matches Python's get_total_buffer_size().
+// batchBufferSize returns the total buffer size in bytes across all columns in
+// a record batch, nested children and dictionaries included. This matches
+// Python's get_total_buffer_size().
 func batchBufferSize(batch arrow.RecordBatch) int64 {
 	var total int64
 	for i := int64(0); i < batch.NumCols(); i++ {
-		col := batch.Column(int(i))
-		for _, buf := range col.Data().Buffers() {
-			if buf != nil {
-				total += int64(buf.Len())
-			}
+		total += arrayDataBufferSize(batch.Column(int(i)).Data())
+	}
+	return total
+}
+
+// arrayDataBufferSize sums the buffers of one array: its own, those of its
+// children (the values of a list, the fields of a struct, the entries of a
+// map) and those of its dictionary. A struct or list column keeps almost
+// nothing in its own buffers.
+func arrayDataBufferSize(data arrow.ArrayData) int64 {
+	var total int64
+	for _, buf := range data.Buffers() {
+		if buf != nil {
+			total += int64(buf.Len())
 		}
+	}
+	for _, child := range data.Children() {
+		total += arrayDataBufferSize(child)
+	}
+	// Dictionary returns a nil *array.Data wrapped in the interface when
+	// there is none.
+	if dict, ok := data.Dictionary().(*array.Data); ok && dict != nil {
+		total += arrayDataBufferSize(dict)
 	}
 	return total
 }
